@@ -1715,6 +1715,18 @@ func stepCandidate(r *raft, m *pb.Message) error {
 			if r.state == StatePreCandidate {
 				r.campaign(campaignElection)
 			} else {
+				if !r.trk.Votes[r.id] {
+					// The votes of the peers already form a quorum, but our own
+					// vote, and with it the term we are campaigning in, has not
+					// been persisted yet (the self-addressed MsgVoteResp is only
+					// delivered once it has). Acting as leader now and crashing
+					// before that write completes would let this node restart in
+					// the previous term, campaign for this same term again and
+					// win it a second time, since the peers repeat their vote for
+					// the same candidate. Wait for our own vote; the tally is
+					// evaluated again when it arrives.
+					return nil
+				}
 				r.becomeLeader()
 				r.bcastAppend()
 			}
